@@ -82,6 +82,24 @@ def _rel_events(args):
             o1 = E.loc_outcome(lambda: outer.parent_to_relative_location(q, optimize_blocks=True))
             o2 = E.loc_outcome(lambda: q.location_relative_to(outer, optimize_blocks=False))
             ev.append(["rel", [ob, ost], [qb, qst], kind, o1, o2])
+            if len(qb) == 1 and n % 2 == 0:
+                # the same map through the interval classes' wrappers (a contiguous query given as start, end, strand)
+                from inscripta.biocantor.gene.feature import FeatureInterval
+                from inscripta.biocantor.gene.transcript import TranscriptInterval
+                from inscripta.biocantor.location.strand import Strand
+
+                S = {"+": Strand.PLUS, "-": Strand.MINUS, ".": Strand.UNSTRANDED}
+                try:
+                    cls = (FeatureInterval, TranscriptInterval)[(n // 2) % 2]
+                    f = cls([b[0] for b in ob], [b[1] for b in ob], S[ost], parent_or_seq_chunk_parent=par)
+                except Exception:
+                    continue
+                conv = (f.sequence_interval_to_feature if cls is FeatureInterval else f.sequence_interval_to_transcript)
+                conv2 = (f.chunk_relative_interval_to_feature if cls is FeatureInterval
+                         else f.chunk_relative_interval_to_transcript)
+                w1 = E.loc_outcome(lambda: conv(qb[0][0], qb[0][1], S[qst]))
+                w2 = E.loc_outcome(lambda: conv2(qb[0][0], qb[0][1], S[qst]))
+                ev.append(["rel", [ob, ost], [qb, qst], kind, w1, w2])
     return ev
 
 
